@@ -1,6 +1,7 @@
 import Lean.Data.Json
 import GsModel.Diff.Json
 import GsModel.Ops.Regen
+import GsModel.Text.Escape
 /-
   Model driver: one JSON request per line on stdin, one JSON response per line on stdout.
   Imports no Mathlib (compiled as `lean_exe gsdriver`).
@@ -46,6 +47,22 @@ def handleRegen (j : Json) : Json :=
   let out := Regen.exec fs ops
   Json.mkObj [("r", Json.str "ok"), ("fs", Json.arr (out.map (fun kv => Json.arr #[Json.str kv.1, Json.str kv.2])).toArray)]
 
+/-- {"op":"text.escape","fn":"comment|blockcomment|backticks","in":s,"pad":p} → {"out":s} -/
+def handleEscape (j : Json) : Json :=
+  let s := (Diff.J.str j "in").toList
+  let out : List Char :=
+    match Diff.J.str j "fn" with
+    | "comment" => Text.padComment s (Diff.J.str j "pad").toList
+    | "blockcomment" => Text.blockComment s
+    | "backticks" => Text.escBacktick s
+    | _ => []
+  let ev := match Diff.J.str j "fn" with
+    | "backticks" => (Text.evalGo ('`' :: out ++ ['`'])).map String.ofList
+    | _ => none
+  Json.mkObj [("r", Json.str "ok"), ("out", Json.str (String.ofList out)),
+    ("eval", match ev with | some v => Json.str v | none => Json.null),
+    ("blockEnd", Json.bool (Text.hasBlockEnd out)), ("inLine", Json.bool (Text.inLineComments out))]
+
 def handle (line : String) : Json :=
   match Json.parse line with
   | .error e => Json.mkObj [("r", Json.str "bad-input"), ("why", Json.str e)]
@@ -54,6 +71,7 @@ def handle (line : String) : Json :=
     | "diff.analyse" => handleDiff j
     | "diff.execute" => handleExecute j
     | "regen.exec" => handleRegen j
+    | "text.escape" => handleEscape j
     | op => Json.mkObj [("r", Json.str "bad-op"), ("op", Json.str op)]
 
 partial def loop (h : IO.FS.Stream) (out : IO.FS.Stream) : IO Unit := do
